@@ -41,6 +41,16 @@ type Op struct {
 	End    int  `json:"end,omitempty"`
 	Merge  bool `json:"merge,omitempty"`
 	ViaAPI bool `json:"api,omitempty"`
+	// gcpark: client operations placed at chosen steps of a GC pass that runs in its own goroutine
+	Places []Placement `json:"places,omitempty"`
+}
+
+// Placement parks the GC goroutine at the Nth occurrence of a hook point and runs Ops on the client thread meanwhile.
+type Placement struct {
+	Point  string `json:"point"`
+	Nth    int    `json:"nth"`
+	Ops    []Op   `json:"ops"`
+	Cancel bool   `json:"cancel,omitempty"` // call CancelGC while parked
 }
 
 const (
@@ -139,6 +149,7 @@ type histRunner struct {
 	inGrp  []bool
 
 	lastResolved Op
+	clientWritesInGC int
 	preGC        []*mkey
 	curOp        int
 	wroteUnserved map[int]bool
@@ -1019,6 +1030,8 @@ func (r *histRunner) step(i int, op *Op) error {
 		return r.doReopen(op)
 	case "gc":
 		return r.doGC(op)
+	case "gcpark":
+		return r.doGCPark(op)
 	}
 	return infraf("unknown op %q", op.Kind)
 }
@@ -1087,7 +1100,7 @@ func (r *histRunner) run() (err error) {
 			if e := r.checkGet(op.K, "read-after-write"); e != nil {
 				return fmt.Errorf("op %d %s: %v", i, opString(op, &r.h.Cfg), e)
 			}
-		case "reopen", "gc", "merge":
+		case "reopen", "gc", "merge", "gcpark":
 			if e := r.sweep("sweep after " + op.Kind); e != nil {
 				return fmt.Errorf("op %d %s: %v", i, opString(op, &r.h.Cfg), e)
 			}
